@@ -9,7 +9,8 @@
 
 from typing import List, Optional, Union
 
-from scico.numpy import Array, BlockArray, isinf
+from scico import numpy as snp
+from scico.numpy import Array, BlockArray
 
 from ._functional import Functional
 
@@ -86,7 +87,7 @@ class ProximalAverage(Functional):
         if self.has_eval:
             weight_func_vals = [alpha * f(x) for (alpha, f) in zip(self.alpha_list, self.func_list)]
             if self.no_inf_eval:
-                weight_func_vals = list(filter(lambda x: not isinf(x), weight_func_vals))
+                weight_func_vals = [snp.where(snp.isinf(val), 0.0, val) for val in weight_func_vals]
             return sum(weight_func_vals)
         else:
             raise ValueError("At least one functional in func_list has has_eval == False.")
